@@ -39,7 +39,10 @@ def shrink_candidates(c):
     ts = c['tests']
     for i in range(len(ts)):
         if len(ts) > 1:
-            yield dict(c, tests=ts[:i] + ts[i + 1:])
+            # twins of a removed test go with it; the others are re-pointed
+            kept = worldcase.drop_test(ts, i)
+            if kept:
+                yield dict(c, tests=kept)
     for i, T in enumerate(ts):
         for key in ('subs', 'cleanups', 'setUp', 'tearDown', 'body', 'xf', 'deco_skip', 'writes', 'threads'):
             if key in T:
@@ -84,6 +87,10 @@ def neighbours(c, rng):
             d['layers'][i]['hooks'] = worldcase.gen_layers(rng, 1)[0]['hooks']
         else:
             d['options'] = worldcase.gen_world(rng, 0, 1)['options']
+        for T in d['tests']:
+            # a replaced original may no longer be able to have a twin
+            if 'twin_of' in T and ('twin_of' in d['tests'][T['twin_of']] or d['tests'][T['twin_of']].get('deco_skip')):
+                del T['twin_of']
         out.append(d)
     return out
 
